@@ -117,6 +117,23 @@ theorem loc_frame {n : Nat} {s : VSt} (h : Inv n s) (t : Tid) (s' : VSt)
           exact absurd (Option.some.inj this).symm hu
       exact local_noncrit _ hc hm (h.loc u)
 
+
+/-! the auxiliary match lemmas `simp`/`grind` generate for the program-point classes must
+live in this module (the step files are built in parallel and would each generate them) -/
+theorem classes_aux (pc : Pc) (k : Nat) (h : pc = .zGet k) :
+    pc.crit = true ∧ pc.zphase = true ∧ pc.zpre = true ∧ pc.mphase = false ∧ pc.mpre = false ∧
+      pc.needZip = false := by
+  simp [h, Pc.crit, Pc.zphase, Pc.zpre, Pc.mphase, Pc.mpre, Pc.needZip]
+
+theorem classes_aux2 (n : Nat) (s : VSt) (pc : Pc) (h : pc = .idle)
+    (e1 : pc.crit = true → s.lock = none) (e2 : pc.zphase = true → s.lock = none)
+    (e3 : pc.zpre = true → s.lock = none) (e4 : pc.mphase = true → s.lock = none)
+    (e5 : pc.mpre = true → s.lock = none) (e6 : pc.needZip = true → s.lock = none)
+    (e7 : Local n s pc) : True := by
+  simp only [h, Pc.crit, Pc.zphase, Pc.zpre, Pc.mphase, Pc.mpre, Pc.needZip, Local, forall_const,
+    Bool.false_eq_true, false_implies, imp_false] at e1 e2 e3 e4 e5 e6 e7
+  trivial
+
 set_option hygiene false in
 macro "open_next" : tactic => `(tactic| (
   unfold next at hn
@@ -149,17 +166,20 @@ set_option hygiene false in
 macro "fld_g" : tactic => `(tactic| (first | assumption | (simp; grind) | grind))
 
 set_option hygiene false in
-macro "step" : tactic => `(tactic| (
+macro "step_pre" : tactic => `(tactic| (
   have h1 := h.zip_ok; have h2 := h.mod_ok; have h3 := h.avail_ok; have h4 := h.nget_le
   have h5 := h.nmod_le; have h6 := h.zc_idle; have h7 := h.mc_idle; have h8 := h.zc_done
   have h9 := h.mc_done; have h10 := h.crit_lock; have h11 := h.lock_crit; have h12 := h.zphase
   have h13 := h.zpre; have h14 := h.mphase; have h15 := h.mpre; have h16 := h.has_zip
-  have h17 := h.loc t; have h18 := h.dead_idle
+  have h17 := h.loc t; have h18 := h.dead_idle; have h19 := h.has_mod
   have e1 := h10 t; have e2 := h12 t; have e3 := h13 t; have e4 := h14 t; have e5 := h15 t
-  have e6 := h16 t; have e7 := h11 t
+  have e6 := h16 t; have e7 := h11 t; have e8 := h19 t
   simp only [hp, Pc.crit, Pc.zphase, Pc.zpre, Pc.mphase, Pc.mpre, Pc.needZip, Local, forall_const,
-    Bool.false_eq_true, false_implies, imp_false] at e1 e2 e3 e4 e5 e6 e7 h17
-  refine Inv.mk ?_ ?_ ?_ ?_ ?_ ?_ ?_ ?_ ?_ ?_ ?_ ?_ ?_ ?_ ?_ ?_
+    Bool.false_eq_true, false_implies, imp_false] at e1 e2 e3 e4 e5 e6 e7 e8 h17))
+
+set_option hygiene false in
+macro "step_main" : tactic => `(tactic| (
+  refine Inv.mk ?_ ?_ ?_ ?_ ?_ ?_ ?_ ?_ ?_ ?_ ?_ ?_ ?_ ?_ ?_ ?_ ?_
     (loc_frame h t _ (fun u hu => by simp [upd, hu]) ?_ ?_) ?_
   · fld_g
   · fld_g
@@ -177,8 +197,9 @@ macro "step" : tactic => `(tactic| (
   · fld_t
   · fld_t
   · fld_t
+  · fld_t
   · first | exact Or.inl ⟨rfl, rfl, rfl, rfl⟩ | (refine Or.inr ⟨by assumption, ?_⟩; first | (simp; done) | (simp; grind) | grind)
-  · (simp [upd, Local]; try grind)
+  · (simp [upd, Local]; try (first | grind | (cases hz : s.zip <;> cases hd : s.dir <;> simp_all <;> grind)))
   · fld_t))
 
 end CueVerif.ModCache
